@@ -37,6 +37,11 @@ theorem fi_obj_dummy (pps bl : List (Str × ArgTok)) (ws : List Tok) :
 
 @[simp] theorem dIt_head : dIt.head = .arg .it := rfl
 
+theorem ppToks_append' (l1 l2 : List (Str × ArgTok)) : ppToks (l1 ++ l2) = ppToks l1 ++ ppToks l2 := by
+  induction l1 with
+  | nil => rfl
+  | cons a r ih => simp [ppToks, ih]
+
 theorem dep_nf_dummy (ty : Typ) (pps bl : List (Str × ArgTok)) (init : List Tok) (last : Tok) (agr : Agr) (g : Gender) :
     DepDummyOK ty pps bl init last agr g := by
   unfold DepDummyOK
@@ -64,19 +69,14 @@ theorem dep_nf_dummy (ty : Typ) (pps bl : List (Str × ArgTok)) (init : List Tok
           mainToks_nil]
       · exact hagr
     case woi | wai | whe | whn =>
-      cases pps with
-      | cons pa R =>
-        simp [linDepDummy, finishDep, dummySt, processIntDep, Gen.ClauseEn.depHasPrepositionList, bind, Except.bind]
-      | nil =>
-        cases bl with
-        | cons pa R =>
-          simp [linDepDummy, finishDep, dummySt, processIntDep, Gen.ClauseEn.depHasPrepositionList, bind, Except.bind,
-            dIt]
-        | nil =>
-          simp [linDepDummy, finishDep, dummySt, processIntDep, Gen.ClauseEn.depHasPrepositionList, bind, Except.bind,
-            pure, Except.pure, dIt, findPPDep, findPPDep_words, moveObjectDep, findIdx, removeAt, dep_main,
-            List.filter_cons, List.filter_append, mainToks_append, mt_pre_word, mt_pre_arg, mainToks_pres, mainToks_nil,
-            dPre, ppToks]
+      simp only [finishDep, linDepDummy]
+      rw [processIntDep_ppq _ _ rfl]
+      simp only [dummySt]
+      obtain ⟨p1, b1, hd, hpb⟩ := dropPP_dummy _ pps bl init
+      rw [hd, ← hpb]
+      simp [moveObjectDep, fi_pre_dummy, removeAt_words, getD_words, getElem?_words, bind, Except.bind, pure,
+        Except.pure, dep_main, List.filter_cons, List.filter_append, mainToks_append, mt_pre_word, mt_pre_arg, mt_dIt,
+        mainToks_pps, mainToks_pres, mainToks_nil, ppToks_append']
     all_goals
       simp [linDepDummy, finishDep, dummySt, processIntDep, moveObjectDep, fi_pre_dummy, fi_subj_dummy, fi_obj_dummy,
         removeAt_words, getD_words, getElem?_words, bind, Except.bind, pure, Except.pure, dep_main,
